@@ -1,8 +1,27 @@
 #!/bin/bash
-# regress_refactors.sh [glob]: apply every filed behaviour-preserving refactoring to /repo in turn and run the quick checks of the
-# properties it touches; every line must show rc=0 (an alarm on one of these is a false alarm of the machinery).
+# regress_refactors.sh [glob] [jobs]: every filed behaviour-preserving refactoring must leave the checks quiet.  For each
+# /verif/refactorings/<id>: a scratch worktree of /repo HEAD under /tmp/rr/<id> with the patch applied, the quick checks of the properties
+# it touches run with PYTHONPATH pointing at the worktree; /repo itself is not touched.  One line per (refactoring, property); every line
+# must show rc=0 (a VIOLATION here is a false alarm of the machinery; rc=3 means the engine could not execute or decide the rewritten code).
 cd "$(dirname "$0")/.."
-for d in refactorings/${1:-*}/; do
+GLOB=${1:-*}; JOBS=${2:-3}
+bin/bootstrap.sh >/dev/null 2>&1
+one() {
+  d=$1; id=$(basename $d)
   ps=$(python3 -c "import json; print(' '.join(json.load(open('$d/meta.json'))['properties_checked']))")
-  tools/try_refactor.sh /verif/$d/patch.diff $ps
-done
+  wt=/tmp/rr/$id; rm -rf $wt; mkdir -p /tmp/rr
+  git -C /repo worktree add -q --detach $wt HEAD 2>/dev/null || { echo "$id worktree-failed"; return; }
+  if git -C $wt apply /verif/$d/patch.diff 2>/dev/null; then
+    for P in $ps; do
+      out=$(cd /verif && VERIF_EVIDENCE_DIR=/tmp/rr/ev_$id PYTHONPATH=$wt timeout 3000 .venv/bin/python -W ignore -m harness.run $P --tier quick 2>&1); rc=$?
+      echo "$id $P rc=$rc violations=$(echo "$out" | grep -c '^VIOLATION') | $(echo "$out" | grep -E '^C[0-9]+ tier' | cut -c1-110)"
+      echo "$out" | grep -E "^(VIOLATION|HARNESS-ERROR|UNDECIDED)" | cut -c1-220 | head -4
+    done
+  else
+    echo "$id patch-does-not-apply"
+  fi
+  git -C /repo worktree remove --force $wt; rm -rf /tmp/rr/ev_$id
+}
+export -f one
+ls -d refactorings/$GLOB/ | xargs -P $JOBS -I{} bash -c 'one {}'
+git -C /repo worktree prune
